@@ -1,6 +1,5 @@
 CONSTANT Level = 1
 SPECIFICATION Spec
-INVARIANT PythDefining
 INVARIANT AlignedOK
 INVARIANT Export
 CHECK_DEADLOCK FALSE
